@@ -419,6 +419,13 @@ class SimFS:
         d = self._seam(kind, path, flags=flags)
         par, name = self.parent(path)
         n = par.children.get(name)
+        hops = 0
+        while n is not None and n.link is not None:       # the last component is a symlink: follow it
+            hops += 1
+            if hops > 8:
+                raise _err(errno.ELOOP, path)
+            par, name = self.parent(n.link)
+            n = par.children.get(name)
         if n is None:
             if not flags & os.O_CREAT:
                 raise _enoent(path)
